@@ -700,9 +700,15 @@ def construct_mutants(F, rng, cap):
     outs_all = {o for f in F for o in f["outs"]}
     for i, j in pairs:                                             # changed default on a shared parameter
         di = dict(fdefaults(F[i]))
-        for k in cur_names(F[j]):
-            if k in di and k not in outs_all and k not in F[j]["bound"] and k not in F[i]["bound"] and k in cur_names(F[i]):
-                G = _dc(F)
+        for k in di:
+            if k in outs_all or k in F[j]["bound"] or k in F[i]["bound"] or k in F[j]["outs"]:
+                continue
+            G = _dc(F)
+            if k not in cur_names(F[j]):                           # make the parameter shared first
+                G[j]["params"].insert(0, [k, k])
+                G[j]["defs"][k] = "X_" + k
+                out.append(("new_shared_default", G))
+            else:
                 G[j]["defs"][k] = "X_" + k
                 out.append(("changed_default", G))
     for j in range(n):
@@ -904,7 +910,12 @@ def distribution(c):
 
 
 def finding_id(c, impl_obs, kind):
-    return None
+    """No known findings; the id only groups violations so that one replay per class of failing cases is reported."""
+    if c["kind"] == "prep":
+        return f"prepare_order:cleanup={c['cleanup']}"
+    if c["kind"] == "classify":
+        return "classification_table"
+    return f"{c['kind']}:{c.get('tag')}"
 
 
 def shrink(c):
